@@ -981,7 +981,8 @@ class DataFrame(_WithAccessor):
             n = len(self.present)
             return Series([zand(c.vals[i] for _, c in self._cols) for i in range(n)], present=self.present, index=self.index.copy(), dtype=np.dtype(bool), kind="bool")
         if axis is None:
-            return sb(zand(c.all().z for _, c in self._cols))
+            zt = lambda b: b.z if hasattr(b, "z") else z3.BoolVal(bool(b))  # noqa: E731  (a constant verdict comes back as a python bool)
+            return sb(zand(zt(c.all()) for _, c in self._cols))
         raise ModelGap("DataFrame.all(axis=%r)" % (axis,))
 
     def dropna(self):
